@@ -1,7 +1,7 @@
 """C06 — the static checker rejects exactly the programs that break a documented rule."""
 import re
 from ..engines import e8_tables as e8
-from ..lib.cfgq import switch_edges, dominating_guards, natural_loops, cycle_avoiding
+from ..lib.cfgq import absence_guard, switch_edges, dominating_guards, natural_loops, cycle_avoiding
 from ..lib.facts import is_callee, callee_fn, sp_str
 from ..lib.trace import Tracer, canon, strip, walk
 
@@ -202,7 +202,7 @@ def run(prog, rep):
                 ok = False
                 for g in dominating_guards(body, tr, b):
                     c = canon(g.cond)
-                    if re.match(r"^Option::is_some\(&Variables::get\(&\*\*arg:ctx\.globals, &\*arg:self\.name\)\)$", c) and g.value is False:
+                    if absence_guard(g, r"^Variables::get\(&\*\*arg:ctx\.globals, &\*arg:self\.name\)$"):
                         other = [e for e in switch_edges(body, tr, g.src) if e.dst != g.dst]
                         if other and err_on_edge(body, other[0].dst, want):
                             ok = True
